@@ -70,6 +70,18 @@ def plan(tier, seed):
         for v in fast:
             shards.append(dict(bin=(v, "c07"), shard=1000 + i, args=big_args + ["--stream", stream_file("big", v, n)],
                                env={"TEXEL_VERIF_NET": runner.net_path(*n)}))
+    # (7) coverage-guided symmetry fuzzing on small material (src/fuzz/c07_egsym.cpp): the hand-written end-game rules are
+    # reached through coverage feedback rather than by sampling; seeded from corpus/c07_egsym (a merged corpus of earlier
+    # campaigns), one campaign per tier also from an empty corpus
+    fuzz_runs = 250000 if quick else 6000000
+    nfuzz = 3 if quick else 6
+    for j in range(nfuzz):
+        cmd = ["python3", "{verif}/tools/fuzzshard.py", "--prop", ID, "--target", "c07_egsym", "--build", "{build}",
+               "--verif", "{verif}", "--part", "{part}", "--found", "{found}", "--work", "{work}",
+               "--seed", "{seed}", "--shard", str(500 + j), "--runs", str(fuzz_runs), "--max-len", "17", "--minimize-runs", "0"]
+        if j == nfuzz - 1:
+            cmd.append("--empty-corpus")
+        shards.append(dict(cmd=cmd, env={"TEXEL_VERIF_NET": runner.net_path(*NETS[j % 2 * 3])}))
     # measured minima over five seeds (quick, asan + 4 fast variants) are 1.7-2x these numbers; the fast variants
     # contribute most of the cases, so the floors scale with how many of them this CPU can run
     floors = {
@@ -86,7 +98,7 @@ def plan(tier, seed):
     scale = (20 if not quick else 1) * max(len(fast), 1) / 4.0
     floors = {k2: int(v * scale) for k2, v in floors.items()}
     return dict(
-        builds=[("asan", "c07")] + [(v, "c07") for v in fast],
+        builds=[("asan", "c07")] + [(v, "c07") for v in fast] + [("fuzz", "c07_egsym")],
         replay_bin=("asan", "c07"),
         nets=NETS,
         env={"TEXEL_VERIF_NET": runner.net_path(*NETS[0])},
